@@ -3,7 +3,9 @@
 Tie (T): translate/gen_optables.py regenerates coq/Gen/OpTables.v (parsed bodies of the operator
 classes, FORWARD / FWD_SHAPE, Node functions, Tensor functions, Device::*_fw, Tensor::reshape /
 flatten, template specialisations, arithmetic operators) from the CURRENT source on every run.
-Proof: Props/Properties_C04.v = finite theorems over the regenerated tables (arity_ok,
+Proof: Props/Properties_C04_real.v = the same model theorems at a REAL instance (shape rules of
+Shape/ShapeImpl.v, Device entries of Tensor/FrontEnd.v, kernel programs of Tensor/Kernels.v) with the
+abstract hypotheses discharged; Props/Properties_C04.v = finite theorems over the regenerated tables (arity_ok,
 delegation_ok, shape_rule_ok, same_functions, cache_variant_ok, api_table_facts; vm_compute over
 forallb, lifted by forallb_forall) + theorems by induction over programs for the abstract API
 model instantiated at the table computed from them (node_value_eq_tensor_value,
@@ -112,6 +114,32 @@ def coq_bad_rows(ctx):
         res[m.group(1)] = re.findall(r'"([^"]*)"', m.group(2))
     if rc != 0 and not res:
         res["<coqc failed>"] = [out[-400:]]
+    res.update(coq_bad_real_rows(ctx, d))
+    return res
+
+
+def coq_bad_real_rows(ctx, d):
+    """rows of the regenerated table whose shape expression / guards / conditions no longer tie to the
+    rule Tensor/FrontEnd.v transcribes for the Device entry they reach (Tables/RealSem.bad_real_rows;
+    RealSem.v contains definitions only, so it builds even when a proof is broken)."""
+    ok, log = pv.coq_make(["Tables/RealSem.vo"], timeout=300)
+    src = os.path.join(d, "c04_real_rows%s.v" % ("" if pv.REPO == "/repo" else "_scratch"))
+    body = ["From Coq Require Import List String Bool.", "From PV Require Import Tables.ApiModel Tables.ApiTable Tables.RealSem.",
+            "Import ListNotations.", "Open Scope string_scope.",
+            'Eval vm_compute in ("TAG real_rows_tied", map fst bad_real_rows).',
+            'Eval vm_compute in ("TAG real_rows_tied(entries)", map snd bad_real_rows).',
+            'Eval vm_compute in ("TAG real_swap_rows", if swap_rows_ok then [] else ["add"; "multiply"]).']
+    open(src, "w").write("\n".join(body) + "\n")
+    rc, out = pv.sh("ulimit -v 12000000; timeout 300 coqc -Q %s PV %s" % (pv.COQ, src), timeout=320, cwd=d)
+    res = {}
+    for m in re.finditer(r'\("TAG ([^"]*)"[^,]*,(.*?)\)\s*:\s', out, re.S):
+        res[m.group(1)] = re.findall(r'"([^"]*)"', m.group(2))
+    ent = res.pop("real_rows_tied(entries)", [])
+    if ent:
+        ctx.cov["real_instance_broken_entries"] = ent
+    if rc != 0 and not res:
+        res["real_rows_tied"] = []
+        ctx.cov["real_instance_rows_query"] = out[-300:]
     return res
 
 
@@ -146,7 +174,7 @@ def _run(ctx):
     ctx.cov["translator"] = {"file": "translate/gen_optables.py", "sources": "primitiv/core/{operator.h,operator_impl.h,operator_impl.cc,node_funcs.cc,tensor_funcs.cc,device.cc,tensor.cc,basic_functions.h,arithmetic.h} of " + pv.REPO,
                              "output": "coq/Gen/OpTables.v", "status": "ok" if not tr_err else tr_err}
     ctx.cov["table_sizes"] = {k: len(v) for k, v in tabs.items()}
-    res = ctx.prove(gen_obligations=9)   # the nine forallb/boolean lemmas of Tables/OpFacts.v behind the theorems
+    res = ctx.prove(gen_obligations=12)   # the nine forallb/boolean lemmas of Tables/OpFacts.v + the three of Tables/RealProofs.v (rows_b, swap_b, bad_real_rows_nil) behind the theorems
     lines = call_lines(tabs) + ["sweep"]
 
     # two-API replay of every row + composite sweep on the real code
@@ -237,6 +265,7 @@ def _run(ctx):
     ctx.cov["exhaustive"] = False
     ctx.assumptions += [
         "translate/gen_optables.py is a parser only (g++ -E text -> syntax trees); every classification is computed in Coq (Tables/OpRows.v, OpCheck.v) from the trees; what the parser does not understand becomes SOther/Other, which no checker accepts",
+        "real instance (Props/Properties_C04_real.v, Tables/RealSem.v): the model theorems are ALSO proved with shapes = the executable uint32 rules of Shape/ShapeImpl.v (C09's model), path conditions / the six Device value guards interpreted on them, a Device entry = the rule Tensor/FrontEnd.v transcribes for it (tie checked row by row over the regenerated table: C04_real_rows_tied; C04_real_entries_are_frontend), values = the kernel index programs of Tensor/Kernels.v for the core family (28 functions: C04_real_nonvacuous_core_family) and an arbitrary deterministic function `other` for the remaining kernels; hypotheses kernels_follow_rules / composite_shapes_agree / commutative_ok are discharged, the only residue being: + and * of the scalars commute (true of IEEE float up to NaN payloads); conventions: one device (the table drops CHECK_DEVICE), a uint32 role denotes its value mod 2^32, a vector<uint32> / tensor-list role is shorter than 2^32, shape operands satisfy the Shape invariant (C04_real_reachable_wf: every computed tensor does), float comparisons of the distribution-parameter guards uninterpreted",
         "abstract model (Tables/ApiModel.v): tensors, shapes, attribute values, truth of path conditions (is_scalar, empty), the value of a shape expression, Device value guards and kernels are uninterpreted; a Device entry is `guards; shape rule (throws iff the rule throws); kernel on a tensor of that shape` (hypothesis kernels_follow_rules = the structure of device.cc); kernels are deterministic functions of attributes and operand values (random functions: relative to the same draws of the device's generator)",
         "hypothesis composite_shapes_agree of the abstract model (Split, BatchSplit, SoftmaxCrossEntropy, SparseSoftmaxCrossEntropy: Tensor function = composite / loop of slices): PROVED for the executable shape-rule model Shape/ShapeImpl.v (C04_composite_shapes_agree: FWD_SHAPE rule = shape of the composite, errors included; ShapeImpl is tied to shape_ops.cc / operator_impl.cc by C09's correspondence); the composite shape functions of Tables/CompositeShapes.v are hand-written mirrors of the reviewed bodies coq/Tables/Reviewed.v, which the regenerated bodies are compared with on every run; additionally tied to the code by the exhaustive two-API sweep of this run",
         "hypothesis commutative_ok: functions::add / multiply (Tensor, Tensor) are commutative (the Node API evaluates a scalar first operand as f(b, a)); float addition/multiplication are commutative and shape_ops::scalar_op / elementwise are symmetric in the batch sizes",
